@@ -20,7 +20,7 @@ RULE = (
     "x ranges (non-trivial = non-empty proper slice). distinct = distinct canonical JSON specs."
 )
 ASSUMPTIONS = [
-    "code points are built so that (line, column) is a function of the index (well-formed positions)",
+    "grid / origins parts: code points are built so that (line, column) is a function of the index; the 'labelled' part drops that assumption and asserts index-only ordering (no equality claims)",
     "multi-origins are the ones the library builds (flat lists); hand-nested ones are not generated",
     "GeneratedCodeOrigin is treated as a code origin over the empty range 0-0 (it subclasses CodeOrigin)",
 ]
@@ -140,6 +140,54 @@ def check_illformed(data: dict, lab: Labels) -> None:
         require(r.start is S and r.end is E, "range-fields", data["v"])
 
 
+# ------------------------------------------------------- points with independent labels
+
+
+def enum_labelled(ctx: Ctx):
+    """code points whose line / column labels are NOT a function of the index (two producers may
+    label the same index differently): every comparison must still follow the index alone."""
+    pts = [(i, ln, col) for i in range(ctx.pick(3, 4)) for ln in (1, 2) for col in (0, 5)]
+    for p in pts:
+        for q in pts:
+            yield {"p": list(p), "q": list(q)}
+
+
+def check_labelled(data: dict, lab: Labels) -> None:
+    from pyoak.origin import CodeOrigin, CodePoint, CodeRange, MemoryTextSource
+
+    p, q = data["p"], data["q"]
+    P, Q = CodePoint(*p), CodePoint(*q)
+    lab.nontrivial = p[0] == q[0] and p[1:] != q[1:]
+    require((P < Q) == (p[0] < q[0]), "point-lt-by-index", (p, q))
+    require((P <= Q) == (p[0] <= q[0]), "point-le-by-index", (p, q))
+    require((P > Q) == (p[0] > q[0]), "point-gt-by-index", (p, q))
+    require((P >= Q) == (p[0] >= q[0]), "point-ge-by-index", (p, q))
+    try:
+        r = CodeRange(start=P, end=Q)
+        require(p[0] <= q[0], "illformed-range-accepted", (p, q))
+    except ValueError:
+        require(p[0] > q[0], "range-rejected-but-wellformed", (p, q))
+        return
+    # ranges [p, q] against ranges built from the canonical labelling of the same indexes
+    src = MemoryTextSource("x" * 10, source_uri="mem://lab")
+    for lo in range(4):
+        for hi in range(lo, 4):
+            other = CodeRange(start=CodePoint(lo, 1, lo), end=CodePoint(hi, 1, hi))
+            a, b = (p[0], q[0]), (lo, hi)
+            require((other in r) == (a[0] <= b[0] and b[1] <= a[1]), "contains-by-index", (p, q, lo, hi))
+            require((r in other) == (b[0] <= a[0] and a[1] <= b[1]), "contains-by-index", (p, q, lo, hi))
+            ov = a[1] >= b[0] and a[0] <= b[1]
+            require(r.overlaps(other) == ov and other.overlaps(r) == ov, "overlaps-by-index-symmetric", (p, q, lo, hi))
+            require((r < other) == (a[1] < b[0]) and (other < r) == (b[1] < a[0]), "lt-by-index", (p, q, lo, hi))
+            for h in (r + other, other + r):
+                require((h.start.index, h.end.index) == (min(a[0], b[0]), max(a[1], b[1])), "hull-by-index", (p, q, lo, hi))
+            s1 = CodeOrigin(source=src, position=r) + CodeOrigin(source=src, position=other)
+            s2 = CodeOrigin(source=src, position=other) + CodeOrigin(source=src, position=r)
+            for s_ in (s1, s2):
+                require(isinstance(s_, CodeOrigin) == ov, "code-origin-merge-by-index", (p, q, lo, hi))
+    lab.count("range-pairs", 10)
+
+
 # ---------------------------------------------------------------------------- origins
 
 
@@ -148,6 +196,7 @@ def st_origins(ctx: Ctx):
         {
             "ops": st.lists(og.st_origin(max_index=12), min_size=1, max_size=4),
             "fresh": st.booleans(),
+            "clear_registry": st.sampled_from([False, False, True]),
         }
     )
 
@@ -271,6 +320,12 @@ def check_origins(data: dict, lab: Labels) -> None:
     fresh = bool(data.get("fresh"))
     lab.tag_if(fresh, "distinct-equal-source-objects")
     objs = [og.build_origin(s, sources, fresh) for s in specs]
+    if data.get("clear_registry"):
+        # the algebra must not depend on the source registry (it is only a serialization aid)
+        from pyoak.origin import Source
+
+        Source.clear_registry()
+        lab.tag("source-registry-cleared")
     kinds = {m[0] for s in specs for m in (_members(s) or [["no"]])}
     srcs = {m[1] for s in specs for m in _members(s)}
     lab.nontrivial = len(specs) >= 2 and (len(kinds) >= 2 or len(srcs) >= 2)
@@ -373,6 +428,8 @@ PARTS = [
          exhaustive_note="all ordered pairs of ranges on 0..N, each with every third range"),
     Part("illformed", check_illformed, enumerate=enum_illformed,
          exhaustive_note="box of (index,line,column) and all (start,end) index pairs"),
+    Part("labelled", check_labelled, enumerate=enum_labelled,
+         exhaustive_note="all pairs of points over index x line x column labels, each against all canonical ranges"),
     Part("origins", check_origins, strategy=st_origins, quick=9600, thorough=320000),
     Part("get_raw", check_get_raw, strategy=st_get_raw, quick=4000, thorough=96000),
 ]
